@@ -52,6 +52,7 @@ int main(int argc, char **argv)
 	if (!f) { perror(argv[1]); return 2; }
 	setvbuf(stdout, NULL, _IOLBF, 0);
 	while ((line = verif_getline(f))) {
+		alarm(10);	/* a case takes milliseconds; a spinning library is killed by SIGALRM */
 		char *save = NULL, *path, *tok;
 		int fd, first = 1;
 		path = strtok_r(line, " ", &save);
